@@ -859,3 +859,24 @@ def udo_wrap(units, rnd, share=1.0):
         v['term'] = {'k': 'udo', 'name': 'f_%d' % len(out), 'params': params, 'ptypes': ['dataset'] * len(params), 'returns': 'dataset', 'body': body, 'args': args}
         out.append(v)
     return out
+
+
+def random_unpivot_units(rnd, n):
+    """unpivot over datasets with 1-3 measures of one numeric type and nulls, alone and after / before other clauses"""
+    units = []
+    for i in range(n):
+        ids = [('Id_1', 'Integer')] + ([('Id_2', 'String')] if rnd.random() < 0.5 else [])
+        ty = rnd.choice(['Integer', 'Number'])
+        meas = [('Me_%d' % (j + 1), 'M', ty) for j in range(rnd.choice([1, 2, 3]))]
+        others = meas + ([('At_1', 'A', 'String')] if rnd.random() < 0.3 else [])
+        env = {'DS_1': gen.shuffled(rnd, gen.dataset(rnd, ids, others, rnd.choice([0, 1, 3, 6]), keyspace=3, null_p=0.3))}
+        t = var('DS_1')
+        kept = [m for m, _, _ in meas]
+        if rnd.random() < 0.3 and len(kept) > 1:
+            kept = rnd.sample(kept, len(kept) - 1)
+            t = {'k': 'clause', 'op': 'keep', 'ds': t, 'items': kept}
+        t = {'k': 'clause', 'op': 'unpivot', 'ds': t, 'items': ['Id_9', 'Me_9', {m: [ord(c) for c in m] for m in kept}]}
+        if rnd.random() < 0.4:
+            t = {'k': 'clause', 'op': 'filter', 'ds': t, 'items': [{'k': 'bin', 'op': rnd.choice(['>', '<=']), 'l': var('Me_9'), 'r': const(I(0))}]}
+        units.append({'id': 'up%d' % i, 'env': env, 'term': t, 'cc': True})
+    return units
